@@ -131,6 +131,7 @@ func verifSetMultipart(req *http.Request, fieldNames, fieldValues, fileKeys, fil
 	panic("multipart model has no native counterpart")
 }
 func verifRequestMultipart(req *http.Request) map[string]interface{} { return nil }
+func verifSpillFiles(req *http.Request)                                   {}
 
 // vNativeTransport routes the real http.Client to the harness transport
 type vNativeTransport struct{ do func(*http.Request) (*http.Response, error) }
@@ -244,18 +245,18 @@ func nativeValidate(k *Kernel, vecs []nativeVector) (int, []string) {
 	replace := map[string]string{}
 	var tmpFiles []string
 	put := func(virtual string, content []byte) {
-		real := filepath.Join(dir, fmt.Sprintf("%d-%s", os.Getpid(), strings.ReplaceAll(strings.TrimPrefix(virtual, "/repo/"), "/", "_")))
+		real := filepath.Join(dir, fmt.Sprintf("%d-%s", os.Getpid(), strings.ReplaceAll(strings.TrimPrefix(virtual, repoRoot+"/"), "/", "_")))
 		os.WriteFile(real, content, 0o644)
 		replace[virtual] = real
 		tmpFiles = append(tmpFiles, real)
 	}
-	put(filepath.Join("/repo", pdir, "zz_verif_prims_test.go"), primsSource(pkgName(k.Pkg), true))
+	put(filepath.Join(repoRoot, pdir, "zz_verif_prims_test.go"), primsSource(pkgName(k.Pkg), true))
 	for _, f := range k.Files {
 		src, _ := os.ReadFile(filepath.Join(verifRoot, "harness", f))
 		base := strings.TrimSuffix(filepath.Base(f), ".go")
-		put(filepath.Join("/repo", pdir, "zz_verif_"+base+"_test.go"), src)
+		put(filepath.Join(repoRoot, pdir, "zz_verif_"+base+"_test.go"), src)
 	}
-	put(filepath.Join("/repo", pdir, "zz_verif_entry_test.go"), []byte("package "+pkgName(k.Pkg)+"\n\nfunc vNativeEntry() { "+k.Entry+"() }\n"))
+	put(filepath.Join(repoRoot, pdir, "zz_verif_entry_test.go"), []byte("package "+pkgName(k.Pkg)+"\n\nfunc vNativeEntry() { "+k.Entry+"() }\n"))
 	defer func() {
 		for _, f := range tmpFiles {
 			os.Remove(f)
@@ -270,7 +271,7 @@ func nativeValidate(k *Kernel, vecs []nativeVector) (int, []string) {
 		pkgArg = "."
 	}
 	cmd := exec.Command("go", "test", "-vet=off", "-count=1", "-timeout", "10m", "-v", "-run", "^TestVerifNative$", "-overlay", ovFile, pkgArg)
-	cmd.Dir = "/repo"
+	cmd.Dir = repoRoot
 	cmd.Env = append(os.Environ(), "VERIF_NATIVE_VECTORS="+vecFile, "GOFLAGS=-mod=mod", "GOPROXY=off", "GOSUMDB=off", "GOTOOLCHAIN=local")
 	out, _ := cmd.CombinedOutput()
 	got := map[int]map[string]interface{}{}
